@@ -334,6 +334,27 @@ Theorem c14_checker_sg_sound : forall tol (m : @interp2 QN) sv gv (r : res Q), v
   inr (x2 m) cs /\ inr (y2 m) cg /\
   exists out, r = Ok out /\ Spec.convexnb tol 2 [x2 m; y2 m] (f2 m) [cs; cg] out = true.
 Proof. exact check_sg_sound. Qed.
+(* exact-value checker (every case of both streams): an accepted value is within the tolerance of the multilinear
+   polynomial of EVERY cell containing the point, i.e. of the value sections 2-6 prove convex, exact on grid points and
+   on multi-affine tables, continuous across cell borders and common to Interp1D/2D/3D/ND; this is what rejects a wrong
+   value that still lies between the corner minimum and maximum *)
+Theorem c14_checker_exact_sound : forall tol n gs (v : @arr QN n) p out, 0 <= tol -> wf n gs v -> inrs gs p ->
+  Spec.exactnb tol n gs v p out = true ->
+  exists cs1, cells gs p cs1 /\
+    forall lo hi, (forall q, In q (corners n cs1 v) -> lo <= q /\ q <= hi) ->
+      forall cs, cells gs p cs ->
+        Qabs (out - ndP n gs cs p v) <= tol * (1 + 2 * Qmax (Qabs lo) (Qabs hi)).
+Proof. exact exactnb_sound. Qed.
+Theorem c14_checker_exact_interpolate_sound : forall tol n gs (v : @arr QN n) (p : list Q) (r : res Q),
+  wf n gs v -> inrs gs p ->
+  Spec.check_exact tol n gs v p r = true -> exists out, r = Ok out /\ Spec.exactnb tol n gs v p out = true.
+Proof. exact check_exact_sound. Qed.
+Theorem c14_checker_sg_exact_sound : forall tol (m : @interp2 QN) sv gv (r : res Q), valid2 m ->
+  Spec.check_sg_exact tol (x2 m) (y2 m) (f2 m) sv gv r = true ->
+  exists out, r = Ok out /\
+    Spec.exactnb tol 2 [x2 m; y2 m] (f2 m)
+      [Spec.qclamp (nq (x2 m) 0) (lastq (x2 m)) sv; Spec.qclamp (nq (y2 m) 0) (lastq (y2 m)) gv] out = true.
+Proof. exact check_sg_exact_sound. Qed.
 (* the grid reported by the implementation is checked against the shape c14_sg_grid_is_underlying proves *)
 Theorem c14_checker_axis_sound : forall tol lo hi bins (xs : list Q), Spec.check_axis tol lo hi bins xs = true ->
   List.length xs = bins /\ incr xs /\ (1 <= List.length xs)%nat /\ nq xs 0 == lo /\
@@ -492,6 +513,9 @@ Print Assumptions c14_checker_convex_sound.
 Print Assumptions c14_checker_on_grid_sound.
 Print Assumptions c14_checker_interpolate_sound.
 Print Assumptions c14_checker_sg_sound.
+Print Assumptions c14_checker_exact_sound.
+Print Assumptions c14_checker_exact_interpolate_sound.
+Print Assumptions c14_checker_sg_exact_sound.
 Print Assumptions c14_checker_axis_sound.
 Print Assumptions c14_checker_clamp.
 Print Assumptions c14_mlin_exact.
